@@ -11,6 +11,9 @@ META = {
     "level": "Decides: (R1) fix_uid_perms / fix_gid_perms / fix_set_bits / detect_world_writable modify the cset only via cset.update(x.change_attributes(<mode|uid|gid>=...)): type, location, target and data cannot change; (R2) fix_set_bits selects entries with (mode & 06000) and (mode & 0002) and clears a mask covering 06000 so no selected entry still satisfies the predicate, and the replacement mode is `mode & ~mask` so file-type bits survive; (R3) the ownership fixes iterate the whole cset (symlinks and devices included) and compare against the configured build uid/gid; (R4) all four run in the pre_merge hook on new_cset for installing modes, and the engine's install/replace csets alias that same preserved new_cset, so the merge step installs the hardened entries. Does NOT decide concrete mode sets.",
     "note": "change_attributes returns a copy with only the named attributes replaced (fs.fsBase, checked structurally in R1)",
 }
+META["technique"] += "; " + 'single-pass-iterable reuse analysis; data-in-format-template lint'
+META["level"] += " Added after the second round of independent changes: " + "(R5) no lazily built list of offenders is consumed twice on one path; no warning builds its %-template out of data (a '%' in a path cannot abort the correction)."
+META["technique"] += "; " + 'generic pack G on the anchored files (optional-flag shift, closures outliving a loop iteration, single-pass iterables consumed twice, %-templates built from data, in-place writes to class-level / memoised objects, generators mutating what they yielded, memo keys that are projections)'
 TRG = "pkgcore.merge.triggers"
 ENG = "pkgcore.merge.engine"
 NAMES = ("fix_uid_perms", "fix_gid_perms", "fix_set_bits", "detect_world_writable")
